@@ -191,6 +191,10 @@ def run(ctx):
         db = G.DagBuilder()
         G.gen_exotic_tree(rng, db, rng.choice([0, 0, 1, 2, 3]), rng.randrange(1, 14))
         check_dag(ctx, db.nodes, f'exotic{t}', boc=(t % 4 == 0))
+    # an ordinary cell and an exotic cell with IDENTICAL bits and references built next to each other (both orders), plus
+    # near twins in bit length / reference order: nothing remembered from one may leak into the other
+    for t in range(ctx.n(80, 800)):
+        check_dag(ctx, G.near_twins(rng, exotic=True), f'twins{t}', boc=(t % 4 == 0))
     for t in range(ctx.n(250, 2500)):
         prune_invariance(ctx, rng, t)
     for t in range(ctx.n(300, 3000)):
